@@ -11,7 +11,10 @@ func C02_frame_helpers() {
 	var h Header
 	h.Fin = vBool("fin")
 	h.OpCode = OpCode(vU8("op"))
-	h.Length = int64(n)
+	// the header's Length field is the caller's business: the helpers work on the payload bytes
+	// they are given (a struct-literal frame often leaves Length at 0) and pass the field through
+	h.Length = int64([]int{n, 0, n - 1, n + 4}[vChoose("hlen", 4)])
+	vAssume(h.Length >= 0)
 	h.Masked = vBool("premasked")
 	h.Mask = [4]byte{vU8("o0"), vU8("o1"), vU8("o2"), vU8("o3")}
 	f := Frame{Header: h, Payload: p}
@@ -50,6 +53,7 @@ func C02_frame_helpers() {
 		vAssert(vEqBytes(g.Payload, xor(orig, h.Mask)), "helpers.unmask.xor")
 		vAssert(vAnd(!g.Header.Masked, g.Header.Mask == [4]byte{}), "helpers.unmask.header")
 		vAssert(!vSameMem(g.Payload, p), "helpers.unmask.noalias")
+		vAssert(vAnd(g.Header.Fin == h.Fin, vAnd(g.Header.OpCode == h.OpCode, g.Header.Length == h.Length)), "helpers.unmask.rest")
 	case 5: // UnmaskFrameInPlace
 		g := UnmaskFrameInPlace(f)
 		vAssert(vEqBytes(p, xor(orig, h.Mask)), "helpers.unmaskinplace.xor")
